@@ -10,6 +10,7 @@ namespace PyTrie.Val
 
 inductive PyVal where
   | bytes (b : Bytes)
+  | bytearray (b : Bytes)     -- bytes-like but not `bytes` (bytearray, memoryview): has a length, is not list-like
   | str
   | int (n : Int)
   | none
@@ -29,6 +30,7 @@ def isBytes : PyVal → Except Exc Bytes
 def hasLength (v : PyVal) (n : Nat) : Except Exc Unit :=
   match v with
   | .bytes b => if b.length = n then .ok () else .error .validation
+  | .bytearray b => if b.length = n then .ok () else .error .validation
   | .list l => if l.length = n then .ok () else .error .validation
   | _ => .error .typeError        -- `len()` of an int / None raises TypeError
 
